@@ -881,6 +881,20 @@ pub fn run_streaming(x: &[u8]) -> StreamRun {
             break;
         }
     }
+    // C06 (termination, work not driven by a declared length): iterated to exhaustion with
+    // errors ignored - what `for ev in parser {}` does - the parser must have returned None
+    // within |x|+2 calls in total.
+    let mut more = 0usize;
+    while crate::alloc::accumulate(|| p.next()).is_some() {
+        more += 1;
+        if r.items + 4 + more > x.len() + 2 {
+            r.notes.push((
+                "C06 streaming parser does not end within |x|+2 calls when iterated to exhaustion",
+                format!("{} items and still no None for {} bytes", r.items + 4 + more, x.len()),
+            ));
+            break;
+        }
+    }
     r.alloc = crate::alloc::stats();
     if r.err.is_none() && open_list.is_some() {
         r.notes.push(("C09 input ended inside a list response without error", String::new()));
